@@ -113,8 +113,8 @@ CARDS = [
         polarized=True, is_log=False, cores=4, skip_singlet=True,
         mugrid=[[3.0, 3], [3.0, 4], [1.0e3, 6]], init=[1.0e2, 5], masses=[1.51, 4.92, 172.5],
     ),
-    # the same as the default card, but the grid object carries the linear flag (see _cards)
-    dict(_linear_xgrid=True),
+    # the default card declared linear, with the grid object carrying the linear flag (see _cards)
+    dict(_linear_xgrid=True, is_log=False),
 ]
 
 
@@ -161,6 +161,10 @@ def _np_sig(keyspecs):
     return None
 
 
+def _dest(path):
+    return path.with_name(f"x-{path.stem}")
+
+
 def _cleanup(path, *ekos):
     for e in ekos:
         try:
@@ -173,11 +177,7 @@ def _cleanup(path, *ekos):
             os.unlink(p)
         except OSError:
             pass
-    # a failing EKO.read leaves its extraction directory behind (not the subject here)
-    d = path.parent
-    for sub in d.glob(f"eko-*"):
-        if sub.is_dir() and sub.name.endswith(f"-own{os.getpid()}"):
-            shutil.rmtree(sub, ignore_errors=True)
+    shutil.rmtree(_dest(path), ignore_errors=True)
 
 
 def _read(path, dest):
@@ -294,7 +294,7 @@ def eval_roundtrip(case):
             res.fail("EKO-roundtrip/write-raises", f"{where}: {type(exc).__name__}: {str(exc)[:300]}")
             res.outcome = "write-raises"
             return res
-        dest = path.with_name(f"eko-{path.stem}-own{os.getpid()}")
+        dest = _dest(path)
         try:
             e2 = _read(path, dest)
         except Exception as exc:  # noqa
@@ -413,7 +413,7 @@ def eval_edit(case):
             res.fail(sig, f"{where}: {type(exc).__name__}: {str(exc)[:200]}")
             res.outcome = "session-raises"
             return res
-        dest = path.with_name(f"eko-{path.stem}-own{os.getpid()}")
+        dest = _dest(path)
         try:
             e2 = _read(path, dest)
         except Exception as exc:  # noqa
